@@ -407,6 +407,9 @@ func Canon(args []string) {
 		}
 		feats := features(b.Doc)
 		r.Eval(len(feats) > 0 || b.Doc.Misc != "none")
+		if len(feats) > 1 {
+			r.Sample(map[string]any{"xml": string(plain), "apex": b.Doc.Apex, "canonical": string(want), "features": feats})
+		}
 		styles := [][]byte{plain, render(b.Doc, rnd, false), render(b.Doc, rnd, false)}
 		for si, xml := range styles {
 			got, err := relicCanon(xml, b.Doc.Apex)
